@@ -24,8 +24,10 @@ struct Inc {
     jump: (i128, i128),
 }
 
-fn model(log: &[Rec], setups: &[Setup], preload_empty: bool, m: &mut Mon) {
-    let _ = preload_empty;
+fn model(log: &[Rec], setups: &[Setup], exact_first_seen: bool, m: &mut Mon) {
+    // earliest sighting (start of an install attempt) of every plan id in the whole history
+    let mut first_sighting: BTreeMap<String, i128> = BTreeMap::new();
+    let mut cur_plan: Option<(String, i128)> = None;
     let mut durable = Book::default();
     let mut mem = Book::default();
     let mut inc = 0usize;
@@ -94,7 +96,13 @@ fn model(log: &[Rec], setups: &[Setup], preload_empty: bool, m: &mut Mon) {
         }
     };
 
+    let mut wall_went_back = false;
+    let mut prev_wall: Option<i128> = None;
     for (i, r) in log.iter().enumerate() {
+        if prev_wall.map(|p| r.wall < p).unwrap_or(false) {
+            wall_went_back = true;
+        }
+        prev_wall = Some(r.wall);
         match &r.ev {
             Ev::Built => {
                 built = true;
@@ -208,7 +216,11 @@ fn model(log: &[Rec], setups: &[Setup], preload_empty: bool, m: &mut Mon) {
                     durable = mem.clone();
                 }
             }
-            Ev::PlanCreate { response, .. } => {
+            Ev::PlanCreate { response, answer, .. } => {
+                if let Ok(id) = answer {
+                    // the earliest moment the library can have seen this plan
+                    first_sighting.entry(id.clone()).or_insert(r.wall);
+                }
                 offered_versions.clear();
                 for a in response.apps.iter() {
                     if let Some(uc) = &a.update_check {
@@ -225,6 +237,8 @@ fn model(log: &[Rec], setups: &[Setup], preload_empty: bool, m: &mut Mon) {
                     Some((p, _)) if p == plan_id => {}
                     _ => mem.plan = Some((plan_id.clone(), t)),
                 }
+                first_sighting.entry(plan_id.clone()).or_insert(t);
+                cur_plan = Some((plan_id.clone(), t));
                 first_seen = mem.plan.as_ref().map(|x| x.1);
                 in_install = true;
                 finish = None;
@@ -253,9 +267,21 @@ fn model(log: &[Rec], setups: &[Setup], preload_empty: bool, m: &mut Mon) {
             }
             Ev::Metric(MetricSnap::SuccessfulUpdateFromFirstSeen(d)) => {
                 first_seen_metric_seen = true;
-                if let (Some(f), Some(fs)) = (finish, first_seen) {
-                    m.judge("c18-first-seen-duration", f >= fs && *d as i128 == f - fs, "", || {
-                        format!("SuccessfulUpdateFromFirstSeen({} ns) at seq {}, expected finish {} - first seen {} = {} ns", d, r.seq, f, fs, f - fs)
+                if exact_first_seen {
+                    if let (Some(f), Some(fs)) = (finish, first_seen) {
+                        m.judge("c18-first-seen-duration", f >= fs && *d as i128 == f - fs, "", || {
+                            format!("SuccessfulUpdateFromFirstSeen({} ns) at seq {}, expected finish {} - first seen {} = {} ns", d, r.seq, f, fs, f - fs)
+                        });
+                    }
+                } else if wall_went_back {
+                    // sightings cannot be ordered on a wall clock that was stepped backwards
+                } else if let (Some(f), Some((plan, t_now))) = (finish, cur_plan.clone()) {
+                    // the store may refuse to record the first-seen time: whatever happens, the time used for
+                    // this plan is not earlier than the plan's first sighting and not later than this attempt
+                    let used = f - *d as i128;
+                    let earliest = first_sighting.get(&plan).copied().unwrap_or(t_now);
+                    m.judge("c18-first-seen-within-plan-lifetime", used + 1_000 >= earliest && used <= t_now + 1_000, if used + 1_000 < earliest { "before-first-sighting" } else { "after-attempt" }, || {
+                        format!("SuccessfulUpdateFromFirstSeen({} ns) at seq {}: implies plan {} was first seen at {} ns, but its first attempt began at {} ns (this attempt at {} ns)", d, r.seq, plan, used, earliest, t_now)
                     });
                 }
             }
@@ -280,7 +306,7 @@ fn model(log: &[Rec], setups: &[Setup], preload_empty: bool, m: &mut Mon) {
             Ev::Taken(EvSnap::Result(_)) => {
                 if in_install && no_failed {
                     if let (Some(f), Some(fs)) = (finish, first_seen) {
-                        if f >= fs {
+                        if f >= fs && exact_first_seen {
                             m.judge("c18-first-seen-metric-reported", first_seen_metric_seen, "", || "install without failed app finished but SuccessfulUpdateFromFirstSeen was not reported".into());
                         }
                     }
@@ -330,6 +356,7 @@ pub fn run(args: &Args, r: &mut Report) {
         .into();
     r.require(&[
         "c18-first-seen-duration",
+        "c18-first-seen-within-plan-lifetime",
         "c18-first-seen-metric-reported",
         "c18-finish-and-target-committed-before-reboot",
         "c18-attempts-count",
@@ -421,6 +448,8 @@ pub fn run(args: &Args, r: &mut Report) {
                     results,
                     progress: vec![0.5],
                     reboot_needed: rng.bool(),
+                    // the device does not go down when asked to (it reaches the new version later, by other means)
+                    reboot_fails: rng.chance(1, 5),
                     // a time sync arriving while the update is being downloaded
                     install_clock_step: if rng.chance(1, 5) {
                         lab.push_str("+sync");
@@ -464,7 +493,15 @@ pub fn run(args: &Args, r: &mut Report) {
             };
         }
         // ---- run
-        let case = FlowCase::new(incs[0].setup.clone(), script);
+        let mut case = FlowCase::new(incs[0].setup.clone(), script);
+        // a store that, for a while, refuses to write the first-seen record (either of its two entries)
+        let faulty_first_seen = rng.chance(1, 6);
+        if faulty_first_seen {
+            let from = rng.below(40);
+            case.fault.fail_keys = vec![if rng.chance(1, 3) { "install_plan_id".to_string() } else { "update_first_seen_time".to_string() }];
+            case.fault.fail_keys_window = Some((from, from + 1 + rng.below(25)));
+            shape.push("first-seen-write-fault".into());
+        }
         let w = make_world(&case);
         if autotick {
             lock(&w).autotick_ns = 250_000;
@@ -529,7 +566,7 @@ pub fn run(args: &Args, r: &mut Report) {
         let mut m = Mon::default();
         {
             let g = lock(&w);
-            model(&g.log, &setups, true, &mut m);
+            model(&g.log, &setups, !faulty_first_seen, &mut m);
         }
         let desc = json!({"shape": shape, "autotick": autotick});
         if let Some(p) = &panicked {
